@@ -3,6 +3,7 @@ import ConfModel.Model.TracerSlots
 import ConfModel.Model.Builder
 import ConfModel.Spec.Handoff
 import ConfModel.Spec.HandoffGlue
+import ConfModel.Model.H2Teardown
 namespace ConfModel.Driver.C16
 open Lean ConfModel.Driver ConfModel ConfModel.Handoff
 
@@ -433,6 +434,96 @@ def finalVerdict (inp impl : Json) : Verdict :=
         else if !waiterOK then s!"waiter ({wantW}): Await returned '{gotW}' with {showSnap wake}, completed was {showSnap atc}, at the end {showSnap fin} (waiter's view {showSnap wfin})"
         else s!"the trace was handed over without the response's trailers: {trailerAt} at completion; announced {declared}, header map at the end {(pairsOf (field impl "headerAtEnd"))}" }
 
+/-! ### exactly-once on a traced HTTP/2 connection under any tear-down, op `teardown` -/
+
+def parseTdStep (s : String) : Option H2Teardown.Step :=
+  match s.splitOn ":" with
+  | ["o", sid, name] => sid.toNat?.map (fun i => .opn i (if name == "-" then "" else name))
+  | ["q", sid] => sid.toNat?.map .reqEnd
+  | ["p", sid] => sid.toNat?.map .respEnd
+  | ["f", sid] => sid.toNat?.map (fun i => .rst i 7 false)
+  | ["k", sid] => sid.toNat?.map (fun i => .rst i 8 false)
+  | ["kc", sid] => sid.toNat?.map (fun i => .rst i 8 true)
+  | ["g", last, code] => match last.toNat?, code.toNat? with
+    | some l, some c => some (.goaway l c)
+    | _, _ => none
+  | ["re"] | ["we"] | ["cl"] | ["ce"] => some .teardown
+  | ["rt"] => some .readTimeout
+  | ["t"] => some .timers
+  | _ => none
+
+def errKind : H2.Err → String
+  | .none => "nil"
+  | .stream _ c => if c == 7 then "refused" else if c == 8 then "cancel" else s!"stream{c}"
+  | .conn c => s!"goaway{c}"
+  | .io _ => "io"
+  | .closed _ => "io"
+
+def renderDelivery (t : H2.Trace) : String :=
+  t.name ++ "#" ++ ((t.req.lookup "id").getD "?") ++ "#" ++ errKind t.err
+
+/-- a retryable GOAWAY cuts off two streams of one test name: which of the two traces stays
+held back depends on the iteration order of a Go map — the model fixes one order -/
+def orderDependent : H2Teardown.Conn → List H2Teardown.Step → Bool
+  | _, [] => false
+  | c, st :: rest =>
+    (match st with
+      | .goaway last code =>
+        let names := ((c.streams.filter (·.1 > last)).map (·.2)).filter (· != "")
+        (H2.Err.conn code).retryable && names.eraseDups.length != names.length
+      | _ => false) || orderDependent (H2Teardown.lower c st).1 rest
+
+def teardownVerdict (inp impl : Json) : Verdict :=
+  if bool (field impl "slow") then
+    { agree := true, holds := true, nontrivial := false, cls := "set-aside-too-slow" } else
+  match (strList (field inp "steps")).mapM parseTdStep with
+  | none => bad "unparsable teardown step"
+  | some steps =>
+    let got : List (String × String × String) := (arr (field impl "deliveries")).map fun d =>
+      match strList d with
+      | [n, i, e] => (n, i, e)
+      | _ => ("?", "?", "?")
+    let gotR := sortStrings (got.map fun (n, i, e) => n ++ "#" ++ i ++ "#" ++ e)
+    let model := sortStrings ((H2Teardown.deliveries steps).map renderDelivery)
+    -- the streams the script opens: (id, name)
+    let opened : List (Nat × String) := steps.filterMap fun st => match st with
+      | .opn sid name => some (sid, name) | _ => none
+    let ops := got.map fun (n, i, _) => (n, i)
+    -- (a) exactly once: no operation is handed to the collector twice
+    let dup := ops.find? (fun o => ops.count o > 1)
+    -- (b) what is delivered is the trace of a named stream of this connection
+    let alien := ops.find? (fun (n, i) => n == "" || !(opened.any fun (sid, name) => toString sid == i && name == n))
+    -- (c) after a tear-down nothing is lost: a named stream whose test name occurs once on the
+    -- connection, opened before any GOAWAY and before the last tear-down, is delivered
+    let lastTd := (steps.zipIdx.filter (fun p => p.1 == .teardown)).getLast?.map (·.2)
+    let firstGa := (steps.zipIdx.find? (fun p => match p.1 with | .goaway _ _ => true | _ => false)).map (·.2)
+    let lost := steps.zipIdx.find? fun (st, idx) => match st with
+      | .opn sid name =>
+        name != "" && (opened.filter (·.2 == name)).length == 1 && (opened.filter (·.1 == sid)).length == 1 &&
+        (match lastTd with | some l => idx < l | none => false) &&
+        (match firstGa with | some g => idx < g | none => true) &&
+        !(ops.contains (name, toString sid))
+      | _ => false
+    let holds := dup.isNone && alien.isNone && lost.isNone
+    let nTd := (steps.filter (· == .teardown)).length
+    let heldAtTd : Bool :=
+      match steps.zipIdx.find? (fun p => p.1 == .teardown) with
+      | some (_, idx) => !(H2.Coll.init.run (H2Teardown.lowerAll H2Teardown.Conn.init (steps.take idx))).waiting.isEmpty
+      | none => false
+    let ambiguous := orderDependent H2Teardown.Conn.init steps
+    { agree := gotR == model || (ambiguous && holds), holds := holds,
+      nontrivial := nTd > 0 && !opened.isEmpty && !ambiguous,
+      model := toJson model,
+      cls := s!"teardowns={min nTd 3}" ++ (if heldAtTd == true then ",held-back-at-tear-down" else "") ++
+        (if steps.contains .timers then ",timer" else "") ++ (if ambiguous then ",map-order-dependent" else ""),
+      why := match dup with
+        | some (n, i) => s!"the trace of one HTTP operation (test {n}, stream {i}) was handed to the collector {ops.count (n, i)} times: {gotR}"
+        | none => match alien with
+          | some (n, i) => s!"a trace that belongs to no named stream of the connection was delivered: test '{n}' stream {i}"
+          | none => match lost with
+            | some (st, _) => s!"after the connection was torn down the trace of {repr st} was never delivered: {gotR}"
+            | none => if gotR == model then "" else s!"collector got {gotR}, model {model}" }
+
 def handle : Handler := fun op inp impl =>
   if !(isNull (field impl "panic")) then
     { agree := false, holds := false, why := "panic: " ++ str (field impl "panic") } else
@@ -470,6 +561,7 @@ def handle : Handler := fun op inp impl =>
   | "results" => resultsVerdict inp impl
   | "wire" => wireVerdict inp impl
   | "final" => finalVerdict inp impl
+  | "teardown" => teardownVerdict inp impl
   | "cancelrt" => cancelVerdict impl false
   | "cancelhandler" => cancelVerdict impl true
   | "builder" =>
